@@ -193,8 +193,18 @@ Definition reads_clean (s : str) : bool :=
   match parse_relaxed s true with Ok (_, O) => true | _ => false end.
 
 (* ------------------------------------------------------------------ the whole property *)
-(* Domain: the texts an operand is made of are non-empty runs of identifier characters
-   (package names, versions, qualifiers, architectures, profile names). *)
+(* Domain of BUILT operands (Relation::new, RelationBuilder, set_version, set_archqual,
+   set_architectures, add_profile): the texts an operand is made of are non-empty runs of
+   identifier characters [A-Za-z0-9.+~-] — package names, qualifiers, profile names, and also
+   VERSIONS and ARCHITECTURE names.  So a version with an epoch ("1:2.0") and a negated
+   architecture ("!armel") are OUTSIDE the theorems about built operands: the code writes such a
+   text as ONE IDENT token ("1:2.0", "!armel"), which is not a token the lexer produces (it gives
+   IDENT COLON IDENT, NOT IDENT), so the tree is not a live layout (RelLiveAll.lwf asks every
+   part's tokens to be lexer tokens; the text and what the accessors read are nevertheless right:
+   proofs/RelEditRefuteP.v built_epoch_version, built_negated_architecture, by evaluation; the
+   rel-edit stream covers them).  Operands obtained by PARSING have no such restriction
+   (model/RelLiveAllParsed.v).  An identifier text is a debversion::Version that prints as it is
+   written (proofs/RelEditVersionP.ident_version_operand). *)
 Definition ident_text (s : str) : bool :=
   match s with [] => false | _ => forallb is_ident_char s end.
 Definition wf_profile (p : profile) : bool :=
@@ -299,8 +309,9 @@ Definition s_remove (i : nat) (s : list fslot) : list fslot :=
               else firstn p s ++ skipn (S p) s
   | None => s
   end.
-(* [f] = the field before the operation (removing an entry's only alternative removes the entry) *)
-Definition sstep (f : lfield) (s : list fslot) (o : aop) : list fslot :=
+(* [f] = the field before the operation (removing an entry's only alternative removes the entry);
+   only the number of alternatives of its entries matters *)
+Definition sstep {A : Type} (f : list (list A)) (s : list fslot) (o : aop) : list fslot :=
   match o with
   | APush _ => s_push s
   | AInsert i _ => s_insert i s
